@@ -19,8 +19,10 @@ import traceback
 from typing import Any, Callable, Dict, List, Optional
 
 ROOT = os.path.dirname(os.path.dirname(os.path.abspath(__file__)))
-EVIDENCE_DIR = os.path.join(ROOT, "evidence")
-REPLAY_DIR = os.path.join(ROOT, "replays")
+# runs against a scratch copy of the repository (VERIF_REPO=..., used for the seeded changes) must not overwrite the evidence of /repo itself
+_SCRATCH_OUT = os.environ.get("VERIF_SCRATCH_OUT") if os.environ.get("VERIF_REPO") else None
+EVIDENCE_DIR = os.path.join(_SCRATCH_OUT or ROOT, "evidence")
+REPLAY_DIR = os.path.join(_SCRATCH_OUT or ROOT, "replays")
 KNOWN = os.path.join(ROOT, "known_findings.json")
 
 
